@@ -13,8 +13,9 @@ Verdict(tr) ==
         \E i \in 1..n : \/ (tr[i].k \in {"wr", "wrf"} /\ Has(tr[i], "op") /\ tr[i].op = OpClose)
                         \/ (tr[i].k = "call" /\ tr[i].m = "close")
                         \/ IsEv(tr[i], {"closing", "closed", "rejected"})
-      connects == SelectSeq(tr, LAMBDA r : r.k = "sock" /\ r.op = "connect")
-      allRefused == connects # <<>> /\ \A i \in 1..Len(connects) : connects[i].res = "refused"
+      \* one attempt per resolved address: a connect call, or a socket that could not even be created
+      connects == SelectSeq(tr, LAMBDA r : r.k = "sock" /\ r.op \in {"connect", "create_fail"})
+      allRefused == connects # <<>> /\ \A i \in 1..Len(connects) : connects[i].op = "create_fail" \/ connects[i].res = "refused"
       endr == Last(tr)
   IN FirstFailing(<<
     <<"exception_escaped_the_iterator", \A i \in 1..n : tr[i].k # "escape">>,
